@@ -33,13 +33,13 @@ type C06StackScript struct {
 }
 
 type stackProv struct {
-	mu     sync.Mutex
-	side   int
-	writer api.ShipConnectionDataWriterInterface
-	got    []string
-	states []model.ShipMessageExchangeState
-	closed int
-	slow   time.Duration
+	mu      sync.Mutex
+	side    int
+	writer  api.ShipConnectionDataWriterInterface
+	got     []string
+	states  []model.ShipMessageExchangeState
+	closed  int
+	slow    time.Duration
 	stallAt int
 	stall   time.Duration
 }
